@@ -78,8 +78,12 @@ Below(cs) == Els(cs) \cup UNION {Below(c.subs) : c \in Els(cs)}
 \* (a name the page shows anyway - the target's own and those of the commands above it - is not a leak when a hidden
 \*  command further down happens to share it)
 OnPath(cfg, p) == UNION {{CmdAt(cfg, Prefix(p, n)).name} \cup Els(CmdAt(cfg, Prefix(p, n)).aliases) : n \in 1..Len(p)}
+\* (... nor is a name that a visible command below the target bears as well: `pkg add` hidden, `repo add` visible)
+VisibleBelow(cfg, p) ==
+  UNION {{c.name} \cup Els(c.aliases) : c \in {x \in Below(Children(cfg, p)) : x.enabled /\ ~x.hidden}}
 Forbidden(cfg, p) ==
-  UNION {{c.name} \cup Els(c.aliases) : c \in {x \in Below(Children(cfg, p)) : ~x.enabled \/ x.hidden}} \ OnPath(cfg, p)
+  (UNION {{c.name} \cup Els(c.aliases) : c \in {x \in Below(Children(cfg, p)) : ~x.enabled \/ x.hidden}})
+  \ (OnPath(cfg, p) \cup VisibleBelow(cfg, p))
 
 \* --- reading a page
 Headings == {<<"USAGE">>, <<"ARGUMENTS">>, <<"COMMANDS">>, <<"AVAILABLE", "COMMANDS">>, <<"OPTIONS">>,
